@@ -705,7 +705,9 @@ class Gen:
                         # a member may require a property it inherits from a sibling member (valid JSON Schema)
                         inherited = [k for p_ in ps for k in merged_object(self.comps.get(p_, {}), self.comps)["properties"] if k not in merged_object(self.comps.get(p_, {}), self.comps)["required"]]
                         if inherited:
-                            members[-1].setdefault("required", []).append(self.rng.choice(inherited))
+                            inherited = sorted(set(inherited))
+                            for k_ in self.rng.sample(inherited, min(len(inherited), self.rng.choice([1, 2, 3, 4]))):
+                                members[-1].setdefault("required", []).append(k_)
                             self.features.add("allOf:requires_inherited")
                 self.rng.shuffle(members)
                 self.comps[nm] = {"allOf": members}
@@ -1238,6 +1240,14 @@ def sharing_docs() -> list[tuple[str, dict]]:
                              "delete": {"operationId": "delete_thing", "parameters": [{"name": "id", "in": "path", "required": True, "schema": {"type": "integer"}}, clone(common_enum)], "responses": ok}}
         P["/things"] = {"get": {"operationId": "search_things", "parameters": [clone(common), clone(common_enum)], "responses": ok}, "post": {"operationId": "make_thing", "parameters": [clone(common)], "responses": ok},
                         "parameters": [{"name": "X-Order", "in": "header", "schema": {"type": "string", "enum": ["a", "b", None], "nullable": True}}]}
+        # names that need a prefix (leading digit / underscore) used as a tag and, in other path items, as parameter, property and operation id
+        P["/2fa/enroll"] = {"post": {"operationId": "enroll", "tags": ["2fa"], "responses": ok}}
+        P["/login"] = {"get": {"operationId": "login", "tags": ["auth"], "parameters": [{"name": "2fa", "in": "query", "schema": {"type": "string"}}, {"name": "_meta", "in": "query", "schema": {"type": "integer"}}], "responses": ok}}
+        P["/meta"] = {"get": {"operationId": "_meta", "tags": ["_meta", "1"], "responses": ok}, "put": {"operationId": "2fa", "tags": ["auth"], "responses": ok}}
+        # a composed model whose inline member requires several properties its referenced parent declares optional
+        d["components"]["schemas"]["Numbered"] = {"type": "object", "properties": {"2fa": {"type": "string"}, "_meta": {"type": "integer"}, "1": {"type": "boolean"}}}
+        d["components"]["schemas"]["StrictDoc"] = {"allOf": [R("Doc"), {"type": "object", "required": ["pages", "kind", "title", "summary"], "properties": {"summary": {"type": "string"}}}]}
+        d["components"]["schemas"]["StrictNumbered"] = {"allOf": [{"required": ["1", "_meta", "2fa"]}, R("Numbered")]}
         # overriding is by (name, location) only: a path-item parameter whose *identifier* equals an operation parameter's is a
         # different parameter; an operation-level name used in two locations still overrides the path-item one in its location
         P["/search"] = {"parameters": [{"name": "user_id", "in": "query", "schema": {"type": "string"}}, {"name": "limit", "in": "query", "schema": {"type": "integer"}},
